@@ -19,12 +19,13 @@ type params struct {
 	Initial string
 	Sched   string   // event | nic | rr | lastused
 	Events  []string // ids (event), NIC names (nic); for polling schedulers: number of ticks = len(Events)
-	Reads   []string // members on which a message arrives (one per step, "" none)
+	Reads   []string // members on which a message arrives (one per step, "" none; "a+a+b" = a burst delivered at once)
 	P       int
+	FailClose string // member whose Close returns an error
 }
 
 func (p params) name() string {
-	return fmt.Sprintf("%s/init=%q/%s/%s/reads=%s/P%d", strings.Join(p.Members, ""), p.Initial, p.Sched, strings.Join(p.Events, ","), strings.Join(p.Reads, ","), p.P)
+	return fmt.Sprintf("%s/init=%q/%s/%s/reads=%s/P%d/fc=%s", strings.Join(p.Members, ""), p.Initial, p.Sched, strings.Join(p.Events, ","), strings.Join(p.Reads, ","), p.P, p.FailClose)
 }
 
 func seqs(alpha []string, maxLen int) [][]string {
@@ -74,6 +75,16 @@ func scenarios(tier string) []vlib.Scenario {
 			}
 		}
 	}
+	// bursts: several messages on one member (and across members) before the consumer gets to read
+	for _, ms := range memberSets {
+		for _, burst := range []string{"a+a", "a+a+a", "a+b+a", "b+b+a+a"} {
+			add(params{Members: ms, Initial: "a", Sched: "event", Events: []string{"b"}, Reads: []string{burst, "b+b"}})
+		}
+		// a member whose Close fails must not keep the others open
+		for _, fc := range ms {
+			add(params{Members: ms, Initial: "a", Sched: "event", Events: []string{"b"}, Reads: []string{"a"}, FailClose: fc})
+		}
+	}
 	add(params{Members: []string{"a", "b"}, Initial: "a", Sched: "event", Events: []string{"b", "a"}, Reads: []string{"a", "b"}, P: 2})
 	add(params{Members: []string{"a", "b"}, Initial: "a", Sched: "lastused", Events: []string{"t", "t"}, Reads: []string{"b", "a"}, P: 1})
 	if tier == "thorough" {
@@ -93,6 +104,7 @@ func config(sc vlib.Scenario, tier string) vsched.Config {
 
 type member struct {
 	id     string
+	failClose bool
 	n      int
 	inbox  [][]byte
 	log    []string
@@ -119,7 +131,14 @@ func (m *member) Write(b []byte) error {
 	m.tx += uint64(len(b))
 	return nil
 }
-func (m *member) Close() error                                        { vsched.Yield("h:member-close"); m.closed = true; return nil }
+func (m *member) Close() error {
+	vsched.Yield("h:member-close")
+	m.closed = true
+	if m.failClose {
+		return fmt.Errorf("fake: close of %s failed", m.id)
+	}
+	return nil
+}
 func (m *member) CloseWithStatus(transport.CloseStatus) error         { return m.Close() }
 func (m *member) RxBytesCounterValue() uint64                         { return m.rx }
 func (m *member) TxBytesCounterValue() uint64                         { return m.tx }
@@ -160,7 +179,7 @@ func (w *world) main() {
 	w.members = map[string]*member{}
 	tm := multi.TransportMap{}
 	for _, id := range w.p.Members {
-		m := &member{id: id, n: len(w.p.Members)}
+		m := &member{id: id, n: len(w.p.Members), failClose: id == w.p.FailClose}
 		w.members[id] = m
 		tm[transport.TransportID(id)] = m
 	}
@@ -227,10 +246,12 @@ func (w *world) main() {
 	}
 	for i := 0; i < n; i++ {
 		if i < len(w.p.Reads) && w.p.Reads[i] != "" {
-			msg := fmt.Sprintf("r%d-%s", i, w.p.Reads[i])
-			w.members[w.p.Reads[i]].inbox = append(w.members[w.p.Reads[i]].inbox, []byte(msg))
-			w.readsSent = append(w.readsSent, msg)
-			w.rxWant += uint64(len(msg))
+			for k, mid := range strings.Split(w.p.Reads[i], "+") {
+				msg := fmt.Sprintf("r%d.%d-%s", i, k, mid)
+				w.members[mid].inbox = append(w.members[mid].inbox, []byte(msg))
+				w.readsSent = append(w.readsSent, msg)
+				w.rxWant += uint64(len(msg))
+			}
 			vsched.Quiesce()
 		}
 		if i < len(w.p.Events) {
@@ -363,7 +384,7 @@ func run(sc vlib.Scenario, cfg vsched.Config) (*vsched.Result, vlib.Verdict) {
 		v.Fail("C19.read", fmt.Sprintf("dev=%v", dev), "Read returned %v, the members delivered %v", w.readsGot, w.readsSent)
 	}
 	if !w.closedAll {
-		v.Fail("C19.close", "member-left-open", "Close did not close every member")
+		v.Fail("C19.close", fmt.Sprintf("member-left-open/failing-close=%v", w.p.FailClose != ""), "Close did not close every member (member whose Close fails: %q)", w.p.FailClose)
 	}
 	if w.txSum != w.txWant || w.rxSum != w.rxWant {
 		v.Fail("C19.counters", "sum", "counters tx=%d rx=%d, sums over members tx=%d rx=%d", w.txSum, w.rxSum, w.txWant, w.rxWant)
